@@ -301,6 +301,13 @@ def corpus():
         g = random.Random(1400 + k); m = sc.gen_model(g)
         m['sections'].append((('Other', 'Extra'), [{'key': ('opt', 'k0'), 'val': 'v0', 'sp': 0}, {'key': ('opt', 'k1'), 'val': 'v1', 'sp': 0}]))
         out.append({'model': m, 'ovr': [['override', ('Other', 'Extra'), ('opt', 'k0'), 0, '']], 'adds': [], 'route': route})
+    # values that contain '=' (an inclusive range start, a comparison) and ':' through the command line: KEY=VALUE ends the key at the FIRST '='
+    for k in (6, 7):
+        g = random.Random(1400 + k); m = sc.gen_model(g)
+        pairs = [(s_, e) for s_, es in m['sections'] for e in es if s_[0] == 'Pair']
+        ovr = [['override', pairs[0][0], pairs[0][1]['key'], 0, GE_DEFS[k % len(GE_DEFS)]]] if pairs else []
+        adds = [['add', ('Other', 'Extra'), ('opt', 'k0'), 0, 'p=q:r'], ['add', ('Pair',), ('pair', 'Zz', 'Zz'), 0, GE_DEFS[(k + 1) % len(GE_DEFS)]]]
+        out.append({'model': m, 'ovr': ovr, 'adds': adds, 'route': 'cli'})
     return out
 
 def search_cases(rng, n):
